@@ -43,16 +43,33 @@ int main(void) {
 	struct type st = {.kind = TYPESTRUCT};
 	st.u.structunion.tag = "s";
 	struct structbuilder b = {&st, &st.u.structunion.members, 0, false};
-	static char *names[] = {"m0", "m1", "m2", "m3"};
+	static char *names[] = {"m0", "m1", "m2", "m3"}; static struct type *mtype[4];
 	for (unsigned i = 0; i < NM; i++) {
 		char k = seq[i]; bool bf = k == 'C' || k == 'S' || k == 'I' || k == 'L';
 		struct type *t = (k | 32) == 'c' ? &typeuchar : (k | 32) == 's' ? &typeushort : (k | 32) == 'i' ? &typeuint : (k | 32) == 'l' ? &typeulong
 			: k == 'f' ? &typefloat : k == 'd' ? &typedouble : k == 'a' ? &arrc : &arri;
 		if (k == 'a') t = &arrc; else if (k == 'A') t = &arri;
 		if (bf) ASSUME(bw[i] >= 1 && bw[i] <= t->size * 8);
+		mtype[i] = t;
 		addmember(&b, (struct qualtype){t, QUALNONE, 0}, names[i], 0, bf ? (unsigned long long)bw[i] : -1ull);
 	}
 	st.size = ALIGNUP(st.size, st.align);
+	/* re-link the members as separate static objects with concrete `next` pointers (values copied from what addmember produced): the list
+	 * addmember builds through `struct member **last` is read back by symex as non-constant pointers, which makes every loop of emittype
+	 * unwind to its bound (58 s instead of 2 s per instance) */
+	{ static struct member mm0, mm1, mm2, mm3; struct member *const mp[4] = {&mm0, &mm1, &mm2, &mm3};    /* one object per member, not an array */
+	  struct member *src = st.u.structunion.members; unsigned k = 0;
+	  if (NM > 0 && src) { mm0 = *src; src = src->next; k++; }
+	  if (NM > 1 && src) { mm1 = *src; src = src->next; k++; }
+	  if (NM > 2 && src) { mm2 = *src; src = src->next; k++; }
+	  if (NM > 3 && src) { mm3 = *src; src = src->next; k++; }
+	  CHECK(src == 0 && k == NM, "one member record per declared member");
+	  mm0.next = NM > 1 ? &mm1 : 0; mm1.next = NM > 2 ? &mm2 : 0; mm2.next = NM > 3 ? &mm3 : 0; mm3.next = 0;
+	  /* pointer-typed fields are pinned to the (asserted) concrete values */
+	  for (unsigned i = 0; i < NM; i++) { CHECK(mp[i]->type == mtype[i] && mp[i]->name == names[i], "member record carries its type and name"); }
+	  if (NM > 0) { mm0.type = mtype[0]; mm0.name = names[0]; } if (NM > 1) { mm1.type = mtype[1]; mm1.name = names[1]; }
+	  if (NM > 2) { mm2.type = mtype[2]; mm2.name = names[2]; } if (NM > 3) { mm3.type = mtype[3]; mm3.name = names[3]; }
+	  st.u.structunion.members = &mm0; }
 	emittype(&st);
 	WITNESS_POINT();
 	CHECK(!bad && closed == 1 && nitem >= 1 && nitem <= MAXIT, "the type definition is well-formed");
